@@ -123,6 +123,11 @@ Section P.
     - fin I.
     - unfold gsync; unfold spec_view, spec_sstep. destruct (stale st || force); [rewrite I; destruct (mem st) as [|v m] eqn:M|]; fin I.
     - unfold gsync, fresh; unfold spec_view, spec_sstep; cbn. rewrite I. destruct (mem st) as [|v m] eqn:M; fin I.
+    - fin I.
+    - fin I.
+    - fin I.
+    - fin I.
+    - fin I.
   Qed.
 
   (* ---- whole histories over several queues ---- *)
@@ -272,6 +277,11 @@ Section P.
         rewrite (dedupe_id (dedupe pre)) by apply dedupe_nodup.
         split; [fin I|]. apply dedupe_nodup.
       + rewrite oset_load by assumption. split; [fin I|auto].
+    - fin I.
+    - fin I.
+    - fin I.
+    - fin I.
+    - fin I.
   Qed.
 
   Lemma dusq_run ops s qs :
@@ -302,4 +312,14 @@ Proof.
     destruct Hok as [Hs [_ [Hm Hr]]]. cbn in Hm, Hr.
     assert (mem st' = mem st) by (rewrite Hm; destruct (mem st); reflexivity).
     repeat split; try congruence. rewrite Hr by reflexivity. now destruct (mem st).
+Qed.
+
+(* a rejected operation (an argument that is not a RegDom) is the identity on the cached content
+   and on the durable store, whatever the state and whatever the store machine *)
+Lemma rejected_identity pyeq (S : Type) sstep sview set q (s : S) st o :
+  rejected o = true ->
+  let '(s', st', r) := gstep pyeq S sstep sview set q s st o in
+  s' = s /\ mem st' = mem st /\ (exists k, r = Exc k).
+Proof.
+  destruct o; try discriminate; intros _; cbn [gstep]; try destruct set; repeat split; eauto.
 Qed.
